@@ -402,6 +402,14 @@ def gen_cases(rng, tier):
     for resp in ("-", "100", "1700", "40000"):
         for mode in ("senderr:0", "senderr:1", "senderr:3", "abandon:1", "abandon:600", "abandon:3000", "abandon:62000"):
             cases.append(["c%d" % k, "c20", "cli", "0", resp, "-", mode]); k += 1
+    # a transport whose send future yields: the response (the server is fast, or runs on another thread) arrives while the first
+    # transmission is still being handed over, or any time after it
+    k = 0
+    for linger in (1, 20, 400, 499, 700):
+        for resp in sorted({0, 1, linger // 2, linger - 1, linger + 1, linger + 300} - {linger}):
+            if resp >= 0:
+                cases.append(["cl%d" % k, "c20", "cli", "0", str(resp), "-", "linger:%d" % linger]); k += 1
+                cases.append(["cl%d" % k, "c20", "cli", "0", str(resp), "-", "linger:%d" % linger, "err"]); k += 1
     return cases
 
 
@@ -502,6 +510,16 @@ def oracle(case, impl):
                     out.append("response with the matching transaction id at %d ms was not delivered to the caller (result %s@%d)" % (resp, result, done))
             elif resp is None and (result != "timeout" or done != GIVE_UP):
                 out.append("no response: expected timeout at %d ms, got %s@%d" % (GIVE_UP, result, done))
+        if mode.startswith("linger:"):
+            lg = int(mode.split(":")[1])
+            if not result.startswith("response:102030405060708090a0b0c"):
+                out.append("response with the matching transaction id at %d ms (first send completing at %d ms) was not delivered to the caller (result %s@%d)" % (resp, lg, result, done))
+            elif done != max(resp, lg):
+                out.append("response at %d ms, first send completing at %d ms: the caller got it at %d ms" % (resp, lg, done))
+            if m.group(6) != "0":
+                out.append("the response carrying the request's transaction id (at %d ms, first send completing at %d ms) was handed to the application as unmatched" % (resp, lg))
+            if resp < lg and sends != [0]:
+                out.append("request answered at %d ms was transmitted at %s" % (resp, sends))
         if m.group(4) != "0" or m.group(5) != "0":
             out.append("transaction entry outlives the call: pending=%s/%s" % (m.group(4), m.group(5)))
     return out[:2]
